@@ -783,6 +783,32 @@ pub fn run_c04(tier: Tier, seed: u64, index: u64, rec: &mut RunRecord) {
             }
         }
     }
+    if r.chance(1, 6) {
+        // the content is edited after signing: no signature is valid over the block's content any more.
+        // The untouched block was verified by the same process just before (a consumer that has seen the
+        // genuine document, then receives the edited one with the signatures it already knows).
+        let signed = body_value(&t.body, &t.keys);
+        let mut ls = vec![];
+        gen::leaves(&signed, "/signed", &mut ls);
+        if !ls.is_empty() {
+            let (ptr, old) = r.pick(&ls).clone();
+            let mut genuine = t.clone();
+            genuine.labels = vec!["GENUINE".into()];
+            genuine.authorized = genuine.signers.clone();
+            genuine.auth_scheme.clear();
+            genuine.auth_json_alias.clear();
+            genuine.threshold = 1;
+            t.ops.push(DocOp::Set { ptr, value: gen::mutate_leaf(&mut r, &old) });
+            t.labels.push("CONTENT-EDITED".into());
+            crate::crash::write_current_trace(&Trace::Seq(vec![Trace::Ceremony(genuine.clone()), Trace::Ceremony(t.clone())]));
+            let p = prepare(&t);
+            let o = finish(&genuine, &p);
+            let f = judge_ceremony(&genuine, &o);
+            fold(&genuine, &o, f, rec, seed, index, "C04");
+            exec_prepared(&t, &p, rec, seed, index, "C04", Some(&genuine));
+            return;
+        }
+    }
     exec_and_fold(&t, rec, seed, index, "C04");
 }
 
